@@ -27,6 +27,14 @@ histories, ~66 k judged renders, ~50 CPU-s in quick; 178 560 histories in thorou
 max_length and max_string include the boundary value 0 (everything omitted and
 reported) in the main part and in the history variants.
 
+EQ-LEAVES stratum: leaves that are == but differ in type/repr (1, True, 1.0, 0, False,
+0.0, -0.0, '', None) side by side as list / tuple elements and dict values of one object;
+judged type-strictly.  FAULT part (E4): a traversal aborted by a leaf's __repr__ raising
+(at every leaf position) or by exceeding the recursion limit, then the same containers and
+sub-containers printed again (keys fault/after-abort/...).  THREAD part (E3, vf/sched.py):
+two threads pretty-printing objects that share a sub-container, every interleaving of the
+lines of rich.pretty with <=1 preemption (keys threads/...).
+
 Cost: ~110-120 us CPU per evaluation (half of it Rich itself). quick = 2.44 M
 evaluations (~215-270 CPU-s, ~15-20 s wall on 16 idle cores); thorough = 52.7 M
 evaluations + 178 560 histories (~6 000 CPU-s estimated, ~7 min wall on 16 idle cores). The development machine
@@ -45,7 +53,7 @@ from ..width import sw
 
 ID = "C16"
 LEVEL = "exploration"
-ENGINE = "E1+E2"
+ENGINE = "E1+E2+E3+E4"
 CAP_S = {"quick": 240, "thorough": 1500}
 TECHNIQUE = ("bounded-exhaustive enumeration of value descriptions x printer parameters on the real "
              "pretty_repr, judged by eval-back with typed deep equality plus an independent "
@@ -76,6 +84,34 @@ KIND_OF_TYPE = {list: "list", tuple: "tuple", set: "set", frozenset: "frozenset"
 LEAF_TYPES = (int, float, bool, type(None), str, bytes)
 
 
+class InjectedFault(BaseException):
+    """what a leaf's __repr__ raises in the fault part: like KeyboardInterrupt, not an Exception"""
+
+
+class InjectedError(Exception):
+    pass
+
+
+class FaultLeaf:
+    """A leaf that prints like `value`; while `mode` is set its __repr__ raises instead
+    ("base": InjectedFault propagates through Rich; "exc": an Exception, which Rich's to_repr
+    turns into a <repr-error ...> text).  Identity hash, so it can sit in sets and be a key."""
+    __slots__ = ("value", "mode", "calls")
+
+    def __init__(self, value):
+        self.value = value
+        self.mode = None
+        self.calls = 0
+
+    def __repr__(self):
+        self.calls += 1
+        if self.mode == "base":
+            raise InjectedFault()
+        if self.mode == "exc":
+            raise InjectedError("injected")
+        return repr(self.value)
+
+
 def L(v):
     return ("L", repr(v))
 
@@ -100,6 +136,13 @@ def build(d):
     k = d[0]
     if k == "L":
         return _leaf(d[1])
+    if k == "F":
+        return FaultLeaf(_leaf(d[1]))
+    if k == "deeplist":
+        v = []
+        for _ in range(d[1]):
+            v = [v]
+        return v
     if k in _SEQ_CTOR:
         return _SEQ_CTOR[k]([build(c) for c in d[1]])
     if k == "array":
@@ -164,7 +207,7 @@ def _build_graph(nodes, root):
 def is_plain(d):
     """built only from list/tuple/dict/set/frozenset and literal leaves"""
     k = d[0]
-    if k == "L":
+    if k in ("L", "F"):
         return True
     if k in ("list", "tuple", "set", "frozenset"):
         return all(is_plain(c) for c in d[1])
@@ -175,7 +218,7 @@ def is_plain(d):
 
 def hashable(d):
     k = d[0]
-    if k == "L":
+    if k in ("L", "F"):
         return True
     if k in ("tuple", "frozenset"):
         return all(hashable(c) for c in d[1])
@@ -352,6 +395,38 @@ def stratum_d3():
                 yield (kind, tuple(zip(KEYS2, (a, b)))) if kind == "dict" else (kind, (a, b))
 
 
+# leaves that compare (and hash) equal but differ in type or repr, plus the other falsy leaves
+EQ_VALUES = [1, True, 1.0, 0, False, 0.0, -0.0, "", None]
+EQ_LEAVES = [L(v) for v in EQ_VALUES]
+
+
+def stratum_eq(maxn):
+    """every list / tuple / deque / dict-values / defaultdict-values of 2..maxn EQ leaves, sets and
+    frozensets of 2, and two mixed shapes that put three EQ leaves as a list element, a tuple element
+    and a dict value of ONE object"""
+    ka, kb, kc, kd = L("a"), L("b"), L("c"), L("d")
+    keys = (ka, kb, kc, kd)
+    for n in range(2, maxn + 1):
+        for t in itertools.product(EQ_LEAVES, repeat=n):
+            for kind in ("list", "tuple", "deque"):
+                if n <= 3 or kind != "deque":
+                    yield (kind, t)
+            yield ("dict", tuple(zip(keys, t)))
+            if n <= 3:
+                yield ("defaultdict", tuple(zip(keys, t)))
+    for t in itertools.permutations(EQ_LEAVES, 2):
+        yield ("set", t)
+        yield ("frozenset", t)
+    for x, y, z in itertools.product(EQ_LEAVES, repeat=3):
+        yield ("list", (x, ("tuple", (y,)), ("dict", ((ka, z),))))
+        yield ("dict", ((ka, x), (kb, ("list", (y,))), (kc, ("tuple", (z, x)))))
+
+
+def params_eq():
+    return [(80, 4, False, None, None), (6, 4, False, None, None), (1, 2, False, None, None),
+            (80, 4, True, None, None), (80, 4, False, 1, 1), (80, 4, False, None, 0), (12, 1, False, 2, None)]
+
+
 CHAIN_KINDS = ("list", "tuple", "dict", "deque", "frozenset", "defaultdict")
 
 
@@ -492,7 +567,7 @@ _PARAMS = {}
 def param_set(name):
     if name not in _PARAMS:
         _PARAMS[name] = {"base": params_base, "trunc": params_trunc, "full": params_full,
-                         "graph": params_graph,
+                         "graph": params_graph, "eq": params_eq,
                          "base+trunc": lambda: params_base() + params_trunc(),
                          "base+trunc8": lambda: params_base() + params_trunc(ALL_TRUNC_COMBOS),
                          "base+trunc2": lambda: params_base() + params_trunc(((0, 0), (1, 1), (2, 3)), (4, 10, 16, 24, 80),
@@ -756,6 +831,8 @@ class Walker:
 
     def key(self, obj, pn, path):
         """dict keys: a container key is printed by repr(); truncation inside it is unspecified"""
+        if type(obj) is FaultLeaf:
+            obj = obj.value
         if type(obj) in LEAF_TYPES:
             return self.leaf(obj, pn, self.ms)
         saved = (self.ml, self.ms)
@@ -771,6 +848,9 @@ class Walker:
 
     def node(self, obj, pn, path):
         t = type(obj)
+        if t is FaultLeaf:
+            obj = obj.value
+            t = type(obj)
         if t in LEAF_TYPES:
             return self.leaf(obj, pn, self.ms)
         kind = KIND_OF_TYPE[t]
@@ -892,6 +972,10 @@ class Walker:
 
 # --------------------------------------------------------------------------- typed deep equality
 def same(a, b):
+    if type(a) is FaultLeaf:
+        a = a.value
+    if type(b) is FaultLeaf:
+        b = b.value
     ta = type(a)
     if ta is not type(b):
         return False
@@ -945,6 +1029,8 @@ def truncation_applies(obj, ml, ms, _seen=None):
     if ml is None and ms is None:
         return False
     t = type(obj)
+    if t is FaultLeaf:
+        return False
     if t in LEAF_TYPES:
         return ms is not None and t in (str, bytes) and len(obj) > ms
     if _seen is None:
@@ -1079,7 +1165,7 @@ def _crash_key(exc):
 
 def is_cyclic(obj, _path=None):
     t = type(obj)
-    if t in LEAF_TYPES or t is array:
+    if t in LEAF_TYPES or t is array or t is FaultLeaf:
         return False
     if _path is None:
         _path = set()
@@ -1400,6 +1486,387 @@ def h_cases(tier):
                     yield vname, desc, mut, variant, hist
 
 
+# --------------------------------------------------------------------------- FAULT part (E4)
+# A traversal is cut short by an exception (a leaf's __repr__ raises at leaf position k; or the
+# value is nested deeper than the recursion limit); afterwards the same containers and their
+# sub-containers are printed again and must read back as the data -- exactly as in a fresh process.
+def _leaf_slots(d, path=()):
+    """paths of all leaf slots of a tree description (values and dict keys)"""
+    k = d[0]
+    if k == "L":
+        yield path
+    elif k in SEQ_KINDS:
+        for i, c in enumerate(d[1]):
+            yield from _leaf_slots(c, path + (i,))
+    elif k in MAP_KINDS:
+        for i, (kd, vd) in enumerate(d[1]):
+            yield from _leaf_slots(kd, path + (i, 0))
+            yield from _leaf_slots(vd, path + (i, 1))
+
+
+def _replace_leaf(d, path):
+    if not path:
+        return ("F", d[1])
+    k = d[0]
+    i = path[0]
+    if k in SEQ_KINDS:
+        return (k, d[1][:i] + (_replace_leaf(d[1][i], path[1:]),) + d[1][i + 1:])
+    pair = list(d[1][i])
+    pair[path[1]] = _replace_leaf(pair[path[1]], path[2:])
+    return (k, d[1][:i] + (tuple(pair),) + d[1][i + 1:])
+
+
+def _containers_of(obj, out=None):
+    """root and all sub-containers (values only), pre-order"""
+    if out is None:
+        out = []
+    if type(obj) in KIND_OF_TYPE and type(obj) is not array:
+        out.append(obj)
+        for c in (obj.values() if isinstance(obj, dict) else obj):
+            _containers_of(c, out)
+    return out
+
+
+def _fault_leaves(obj, out=None):
+    if out is None:
+        out = []
+    if type(obj) is FaultLeaf:
+        out.append(obj)
+    elif type(obj) in KIND_OF_TYPE and type(obj) is not array:
+        if isinstance(obj, dict):
+            for k, v in obj.items():
+                _fault_leaves(k, out)
+                _fault_leaves(v, out)
+        else:
+            for c in obj:
+                _fault_leaves(c, out)
+    return out
+
+
+def f_values(tier):
+    small = [L0, L("a")]
+    kinds = ("list", "tuple", "deque", "set", "frozenset", "dict", "defaultdict")
+    yield from _containers_over(small, 1, 2, kinds=kinds)
+    yield ("Counter", ((L("a"), L(1)),))
+    inner = [L0, ("list", (L0,)), ("list", (L0, L("a"))), ("tuple", (L0,)), ("dict", ((L("a"), L0),)),
+             ("set", (L0,)), ("frozenset", (L0,)), ("deque", (L0,)), ("defaultdict", ((L("a"), L0),)),
+             ("list", ())]
+    yield from _containers_over(inner, 1, 2, kinds=kinds)
+    deep = [("list", (("list", (L0,)),)), ("dict", ((L("a"), ("tuple", (L0, ("list", (L0,))))),)),
+            ("tuple", (("dict", ((L("a"), ("list", (L0,))),)),))]
+    yield from _containers_over(deep + [L0], 1, 2, kinds=("list", "tuple", "dict", "deque"))
+    if tier != "quick":
+        yield from _containers_over(inner, 3, 3, kinds=("list", "tuple", "dict"), keys=KEYS3)
+
+
+F_WIDTHS = (80, 1)
+DEEP = 3500     # > 3 x the default recursion limit
+
+
+def f_cases(tier):
+    """(description with F leaves, fault modes in call order)"""
+    for d in f_values(tier):
+        slots = list(_leaf_slots(d))
+        for sl in slots:
+            fd = _replace_leaf(d, sl)
+            yield ("leaf", fd, ("base",))
+            yield ("leaf", fd, ("exc",))
+            if tier != "quick":
+                yield ("leaf", fd, ("base", "base"))
+        if tier != "quick":
+            for a, b in itertools.combinations(slots, 2):
+                yield ("leaf2", _replace_leaf(_replace_leaf(d, a), b), ("base",))
+    # recursion: [c, deep] in a mutable holder; the over-deep part is removed afterwards
+    cs = [("list", (L0, L(1))), ("dict", ((L("k"), ("tuple", (L0,))),)), ("set", (L0,)), L0]
+    for c in cs:
+        for holder in ("list", "dict", "deque", "list-in-list", "list-in-tuple", "dict-in-list"):
+            yield ("recursion", (holder, c), ("recursion",))
+
+
+def _judge_plain_call(obj, w, res, case, keyprefix, what):
+    """pretty_repr(obj) at width w in the current process state must read back as obj"""
+    from rich.pretty import pretty_repr
+    res.evaluations += 1
+    try:
+        out = pretty_repr(obj, max_width=w)
+    except Exception as e:      # noqa
+        res.violate(keyprefix + _crash_key(e), case, "%s: %s: %s" % (what, type(e).__name__, e))
+        return False
+    viol, _info, _root, _toks = judge_content(("H",), obj, out, None, None)
+    if viol:
+        key, detail = viol[0]
+        res.violate(keyprefix + key, case, "%s at width %d printed\n%s\n%s" % (what, w, out, detail))
+        return False
+    return True
+
+
+def run_fault(kind, fd, modes, res):
+    from rich.pretty import pretty_repr
+    case = {"part": "fault", "kind": kind, "v": fd, "modes": list(modes)}
+    outcomes = []
+    if kind == "recursion":
+        holder, cdesc = fd
+        c = build(cdesc)
+        deep = build(("deeplist", DEEP))
+        if holder == "list":
+            root = inner = [c, deep]
+        elif holder == "dict":
+            root = inner = {"a": c, "b": deep}
+        elif holder == "deque":
+            root = inner = deque([c, deep])
+        elif holder == "list-in-list":
+            inner = [c, deep]
+            root = [inner, 0]
+        elif holder == "list-in-tuple":
+            inner = [c, deep]
+            root = (inner,)
+        else:
+            inner = {"a": c, "b": deep}
+            root = [inner]
+        try:
+            with alarm(30):
+                pretty_repr(root, max_width=80)
+            outcomes.append("returned")
+        except RecursionError:
+            outcomes.append("RecursionError")
+        except CaseTimeout:
+            res.violate("fault/hang", case, "pretty_repr of an over-deep value did not return")
+            return
+        except Exception as e:      # noqa
+            outcomes.append(type(e).__name__)
+        if isinstance(inner, dict):
+            del inner["b"]
+        else:
+            inner.pop()
+        del deep
+    else:
+        root = build(fd)
+        leaves = _fault_leaves(root)
+        for mode in modes:
+            for fl in leaves:
+                fl.mode = mode
+                fl.calls = 0
+            try:
+                pretty_repr(root, max_width=80)
+                outcomes.append("returned")
+            except InjectedFault:
+                outcomes.append("raised")
+            except Exception as e:      # noqa
+                res.violate("fault/first-call/" + _crash_key(e), case, "%s: %s" % (type(e).__name__, e))
+                outcomes.append("crash")
+            finally:
+                for fl in leaves:
+                    fl.mode = None
+    ok = True
+    for cont in _containers_of(root):
+        for w in F_WIDTHS:
+            ok = _judge_plain_call(cont, w, res, case, "fault/after-abort/",
+                                   "%s %r after the aborted traversal" % (type(cont).__name__, cont)) and ok
+    # an unrelated, newly built value must be unaffected too
+    ok = _judge_plain_call(build(("dict", ((L("x"), ("list", (L0, ("tuple", (L(1),))))),))), 80, res, case,
+                           "fault/after-abort/", "a new unrelated value") and ok
+    res.sig(("fault", kind, tuple(modes), tuple(outcomes), type(root).__name__, ok),
+            nontrivial="raised" in outcomes or "RecursionError" in outcomes)
+    res.count("fault_histories")
+
+
+def _in_child(fn):
+    """run fn() -> Result in a forked child (module state the part may leave behind, monitoring
+    events, cooperative primitives never reach the other shards of this worker)"""
+    import os
+    import pickle
+    r, w = os.pipe()
+    pid = os.fork()
+    if pid == 0:
+        code = 0
+        try:
+            os.close(r)
+            try:
+                data = pickle.dumps(("ok", fn()))
+            except BaseException:      # noqa
+                data = pickle.dumps(("err", traceback.format_exc()))
+            with os.fdopen(w, "wb") as f:
+                f.write(data)
+        except BaseException:      # noqa
+            code = 1
+        finally:
+            os._exit(code)
+    os.close(w)
+    with os.fdopen(r, "rb") as f:
+        data = f.read()
+    os.waitpid(pid, 0)
+    if not data:
+        raise RuntimeError("child process died without an answer")
+    st, out = pickle.loads(data)
+    if st != "ok":
+        raise RuntimeError("child failed: %s" % out)
+    return out
+
+
+def _part_fault(sh, tier):
+    res = Result()
+    for idx, (kind, fd, modes) in enumerate(f_cases(tier)):
+        if idx % sh["n"] != sh["i"]:
+            continue
+        if deadline_passed():
+            res.capped = True
+            break
+        run_fault(kind, fd, modes, res)
+        if idx % 997 == 0:
+            res.sample({"part": "fault", "kind": kind, "v": fd, "modes": list(modes)})
+    return res
+
+
+# --------------------------------------------------------------------------- THREAD part (E3)
+# Two real threads run pretty_repr at the same time on objects that share a sub-container;
+# vf/sched.py enumerates every interleaving of the executed lines of rich.pretty with <= 1
+# preemption.  Each thread's text must read back as its own object (the sequential result).
+T_SHARED = {
+    "list": ("list", (L0, L(1))),
+    "dict": ("dict", ((L("a"), ("list", (L0,))),)),
+    "nested": ("list", (("tuple", (L0,)), ("list", (L(1),)))),
+}
+T_HARNESSES = [
+    # id, shared sub-container, how thread A wraps it, how thread B wraps it, width A, width B
+    ("same-object", "list", "self", "self", 80, 80),
+    ("dict-holder-vs-member", "list", "dict", "self", 80, 80),
+    ("two-holders", "dict", "list", "tuple", 80, 4),
+    ("holder-twice-vs-member", "list", "twice", "self", 4, 80),
+    ("nested-vs-list-holder", "nested", "self", "list", 80, 80),
+]
+T_MAX_EXECS = 6000
+T_STOP_AFTER_VIOLATIONS = 10
+
+
+def _t_wrap(how, shared):
+    if how == "self":
+        return shared
+    if how == "dict":
+        return {"k": shared, "z": 0}
+    if how == "list":
+        return [0, shared]
+    if how == "tuple":
+        return (shared,)
+    if how == "twice":
+        return [shared, shared]
+    raise ValueError(how)
+
+
+_T_READY = []
+
+
+def _t_events():
+    from .. import sched
+    sched.install()
+    if not _T_READY:
+        import rich.pretty
+        for co in sched._code_objects(rich.pretty):
+            sys.monitoring.set_local_events(sched.TOOL, co, sys.monitoring.events.LINE)
+        sched.SKIP_CODES = frozenset()
+        _T_READY.append(True)
+
+
+def _t_make(hid):
+    from rich.pretty import pretty_repr
+    _hid, sh, ha, hb, wa, wb = [h for h in T_HARNESSES if h[0] == hid][0]
+
+    def make(s):
+        shared = build(T_SHARED[sh])
+        a, b = _t_wrap(ha, shared), _t_wrap(hb, shared)
+        out = {}
+
+        def A():
+            out["A"] = pretty_repr(a, max_width=wa)
+
+        def B():
+            out["B"] = pretty_repr(b, max_width=wb)
+
+        def observe():
+            after = {}
+            for tid, obj, w in (("A", a, wa), ("B", b, wb)):
+                try:
+                    after[tid] = pretty_repr(obj, max_width=w)
+                except Exception as e:      # noqa
+                    after[tid] = e
+            return {"got": dict(out), "after": after, "objs": {"A": a, "B": b}}
+        return {"A": A, "B": B}, observe
+    return make
+
+
+def _t_judge(hid, s, obs):
+    vio = []
+    if s.problem:
+        vio.append(("threads/%s" % s.problem.split(":")[0], s.problem))
+    for tid, e in s.errors:
+        vio.append(("threads/exception/%s" % type(e).__name__, "thread %s raised %r" % (tid, e)))
+    for tid in ("A", "B"):
+        obj = obs["objs"][tid]
+        if tid not in obs["got"]:
+            if not s.problem and not any(t == tid for t, _ in s.errors):
+                vio.append(("threads/no-result", "thread %s stored no result" % tid))
+        else:
+            viol, _i, _r, _t = judge_content(("H",), obj, obs["got"][tid], None, None)
+            if viol:
+                vio.append(("threads/not-the-value/" + viol[0][0],
+                            "thread %s printed %r as\n%s\n%s" % (tid, obj, obs["got"][tid], viol[0][1])))
+        aft = obs["after"][tid]
+        if isinstance(aft, Exception):
+            vio.append(("threads/afterwards/exception/%s" % type(aft).__name__, "printing %r after the threads: %r"
+                        % (obj, aft)))
+        else:
+            viol, _i, _r, _t = judge_content(("H",), obj, aft, None, None)
+            if viol:
+                vio.append(("threads/afterwards/not-the-value/" + viol[0][0],
+                            "after both threads finished %r prints as\n%s\n%s" % (obj, aft, viol[0][1])))
+    dev = s.deviations_before(len(s.choices))
+    return ("threads", hid, min(dev, 2), bool(vio)), vio
+
+
+def _part_threads(sh, tier):
+    from .. import sched
+    res = Result()
+    hid = sh["h"]
+    bound = 1      # bound 2 is ~40 k schedules per harness (~10 CPU-min); not needed for shared-state slips
+    _t_events()
+    bad = [0]
+
+    def judge(s, obs):
+        sig, vio = _t_judge(hid, s, obs)
+        res.evaluations += 4
+        res.sig(sig, nontrivial=sig[2] > 0)
+        if vio:
+            bad[0] += 1
+            ch = list(s.choices)
+            while ch and ch[-1] == 0:
+                ch.pop()
+            for key, detail in vio:
+                res.violate(key, {"part": "threads", "h": hid, "choices": ch}, detail)
+
+    st = sched.explore(_t_make(hid), bound, judge, granularity="line", timeout_budget=0,
+                       max_execs=T_MAX_EXECS,
+                       stop=lambda: deadline_passed() or bad[0] >= T_STOP_AFTER_VIOLATIONS)
+    res.count("schedules", st["executions"])
+    res.counters["max_choice_points_per_schedule"] = st["max_choice_points"]
+    if st["complete"]:
+        res.count("threads_complete:%s:b%d" % (hid, bound))
+    elif bad[0] < T_STOP_AFTER_VIOLATIONS:
+        res.capped = True
+        res.count("threads_incomplete:%s:b%d" % (hid, bound))
+    res.sample({"part": "threads", "harness": hid, "bound": bound}, limit=1)
+    return res
+
+
+def _replay_threads(case):
+    from .. import sched
+    res = Result()
+    _t_events()
+    s, obs = sched.run_once(_t_make(case["h"]), list(case["choices"]), "line", 0)
+    _sig, vio = _t_judge(case["h"], s, obs)
+    for key, detail in vio:
+        res.violate(key, case, detail)
+    return res
+
+
 # --------------------------------------------------------------------------- plan
 # stratum name -> (generator, parameter-set name quick, parameter-set name thorough, tiers)
 ROT_K = 64
@@ -1411,6 +1878,7 @@ def _strata(tier):
             ("leaves", stratum_leaves, "base+trunc"),
             ("d1<=2", lambda: stratum_d1(2), "base+trunc"),
             ("d2<=2", stratum_d2_quick, "base+trunc"),
+            ("eq-leaves<=3", lambda: stratum_eq(3), "eq"),
             ("graphs1", lambda: stratum_graphs(1, ("list", "dict", "deque", "defaultdict", "tuple")), "graph"),
             ("graphs2", lambda: stratum_graphs(2, ("list", "dict", "tuple", "deque")), "graph"),
         ]
@@ -1422,6 +1890,7 @@ def _strata(tier):
         ("d2=3", stratum_d2_three, "base+trunc2"),
         ("d3", stratum_d3, "base+trunc2"),
         ("chains4-6", stratum_chains, "base"),
+        ("eq-leaves<=4", lambda: stratum_eq(4), "eq"),
         ("graphs1", lambda: stratum_graphs(1, ("list", "dict", "deque", "defaultdict", "tuple")), "graph"),
         ("graphs2", lambda: stratum_graphs(2, ("list", "dict", "tuple", "deque", "defaultdict")), "graph"),
         ("graphs3", lambda: stratum_graphs(3, ("list", "dict", "tuple")), "graph"),
@@ -1445,6 +1914,9 @@ def plan(tier, seed):
         shards += [{"part": "rot", "i": i, "n": 16, "slice": seed % ROT_K} for i in range(16)]
     nh = 8 if tier == "quick" else 32
     shards += [{"part": "hist", "i": i, "n": nh} for i in range(nh)]
+    nf = 4 if tier == "quick" else 16
+    shards += [{"part": "fault", "i": i, "n": nf} for i in range(nf)]
+    shards += [{"part": "threads", "h": h[0]} for h in T_HARNESSES]
     return shards
 
 
@@ -1469,6 +1941,10 @@ def run_shard(sh, tier, seed):
                 run_value(desc, params, res, sample_every=4001, idx=idx)
             if sh["i"] == 0:
                 res.count("values/" + name, cnt)
+    elif sh["part"] == "fault":
+        return _in_child(lambda: _part_fault(sh, tier))
+    elif sh["part"] == "threads":
+        return _in_child(lambda: _part_threads(sh, tier))
     elif sh["part"] == "hist":
         for idx, (vname, desc, mut, variant, hist) in enumerate(h_cases(tier)):
             if idx % sh["n"] != sh["i"]:
@@ -1530,9 +2006,26 @@ def describe(tier, seed, res):
              "Pretty instance; every render whose current representation fits the width line by line is judged: it must "
              "evaluate back to (walk-match) the CURRENT object and equal pretty_repr of it."
              % (len(H_VALUES), list(H_MUTATIONS), len(H_VARIANTS), 3 if tier == "quick" else 4, H_W1, H_W1, H_W2))
+    rule += (" EQ-LEAVES stratum: every list/tuple/deque/dict-values/defaultdict-values of 2..%d leaves from {1, True, 1.0, 0, "
+             "False, 0.0, -0.0, '', None} (leaves that are == but differ in type or repr), sets/frozensets of 2, and two mixed "
+             "shapes holding three of them as list element, tuple element and dict value of one object, x 7 parameter vectors; "
+             "judged type-strictly (typed deep equality of the eval'd value, -0.0 != 0.0, token-wise literal comparison in the walk, "
+             "repr equality). FAULT part (E4): %d fault histories -- containers of depth <=3 (7 kinds), a leaf at EVERY leaf "
+             "position (values and dict keys) whose __repr__ raises a BaseException (propagates) or an Exception (Rich prints "
+             "<repr-error>)%s; and values nested deeper than the recursion limit inside 6 holders -- then the root, every "
+             "sub-container (widths 80 and 1) and a new unrelated value are printed in the same process and must read back as the "
+             "data. THREAD part (E3, vf/sched.py): %d harnesses of two real threads running pretty_repr on objects that share a "
+             "sub-container (same object, holder vs member, two holders, holder-twice, nested); every interleaving of the executed "
+             "lines of rich.pretty with <=1 preemption (%d schedules) -- each thread's text, and the text printed after both "
+             "finished, must read back as the object."
+             % (3 if tier == "quick" else 4, res.counters.get("fault_histories", 0),
+                "" if tier == "quick" else ", two faults in a row, two faulty leaves", len(T_HARNESSES),
+                res.counters.get("schedules", 0)))
     return {
         "rule": rule,
         "assumptions": [
+            "FAULT / THREAD parts run in forked children of the worker; the first (aborted) call of a fault history is not judged (raising, or <repr-error ...> for an Exception, is Rich's documented behaviour), only the calls after it",
+            "THREAD part: scheduling points are the executed lines of rich.pretty (not bytecodes, not C code such as repr() of builtins); two threads, preemption bound 1",
             "HISTORY part: clause (a) compares with pretty_repr of the current object, which is itself decided by the main part of this check; clause (b) (eval-back / structural walk against the current object) is independent of it; renders in which some line of the representation is wider than the render width are not judged (cropping/wrapping is Text's business); indent guide characters are read as spaces",
             "eval environment = collections + array; \"<class 'int'>\" (repr's spelling of the default factory) is rewritten to int before eval",
             "repr equality is demanded only for values built solely from list/tuple/dict/set/frozenset and literal leaves (repr(Counter) orders by count)",
@@ -1544,6 +2037,9 @@ def describe(tier, seed, res):
         ],
         "coverage": {"values_by_stratum": vals,
                      "histories": res.counters.get("histories", 0),
+                     "fault_histories": res.counters.get("fault_histories", 0),
+                     "thread_schedules": res.counters.get("schedules", 0),
+                     "completed_thread_harness_bounds": sorted(k[17:] for k in res.counters if k.startswith("threads_complete:")),
                      "rotating_slice": (seed % ROT_K) if tier == "quick" else None},
     }
 
@@ -1556,6 +2052,12 @@ def _tuplify(x):
 
 def replay(case):
     res = Result()
+    if case.get("part") == "fault":
+        run_fault(case["kind"], _tuplify(case["v"]), tuple(case["modes"]), res)
+        return [(k, v[2]) for k, v in sorted(res.violations.items())]
+    if case.get("part") == "threads":
+        res = _in_child(lambda: _replay_threads(case))
+        return [(k, v[2]) for k, v in sorted(res.violations.items())]
     if case.get("part") == "hist":
         desc = dict(H_VALUES)[case["value"]]
         run_history(case["value"], desc, case["mut"], case["variant"], tuple(case["hist"]), res)
